@@ -16,7 +16,7 @@ PRECS = [64, 128, 256, 512, 1024]
 def rnd_config(rnd, entries=("exact-primal", "exact-dual", "opt_primal", "opt_dual"), limits=True, bases=True):
     c = dict(entry=rnd.choice(entries), pp=rnd.choice(PP), dp=rnd.choice(DP), scaling=rnd.choice([0, 1]),
              display=rnd.choice([0, 0, 0, 1]), prec=rnd.choice(PRECS), maxit=None, basis="none")
-    if limits and rnd.random() < 0.12:
+    if limits and rnd.random() < 0.06:
         c["maxit"] = rnd.choice([1, 3, 10])
     if bases and rnd.random() < 0.3:
         c["basis"] = rnd.choice(["optimal", "random", "otherobj"])
@@ -36,6 +36,10 @@ def param_lines(c, slot):
            "set_param %s 7 %d" % (slot, c["scaling"]), "set_param %s 4 %d" % (slot, c["display"])]
     if c["maxit"] is not None:
         out.append("set_param %s 5 %d" % (slot, c["maxit"]))
+    elif not c["entry"].startswith("exact"):
+        # the pure rational simplex has no anti-cycling tolerance: bound the run (a limit stop is non-definitive
+        # and never compared); the default of 500000 iterations only costs time
+        out.append("set_param %s 5 %d" % (slot, c.get("ratlimit", 3000)))
     return out
 
 
@@ -285,6 +289,9 @@ def gen_case(prop, tier, seed, stream, k):
             cfg["entry"] = rnd.choice(["exact-primal", "exact-dual"])
     else:
         cfg = rnd_config(rnd)
+        if stream == "medium":
+            cfg["entry"] = rnd.choice(["exact-primal", "exact-dual", "exact-dual", "opt_dual"])
+            cfg["maxit"] = None
     lines, slot = case_script(rnd, m, cfg)
     cid = "%s-%s-%d" % (prop, stream, k)
     return run.Case(cid, lines, dict(stream=stream, k=k, cfg=cfg)), m, cfg
@@ -331,12 +338,12 @@ def plan(prop, tier):
     """list of (stream, count)"""
     q = tier == "quick"
     if prop == "C01":
-        n = 260 if q else 5000
+        n = 90 if q else 5000
         P = [(f, n) for f in ["small-rand", "small-int", "degenerate", "illcond", "thin", "planted-opt", "tiny"]]
-        P.append(("medium", 30 if q else 400))
+        P.append(("medium", 8 if q else 300))
         return P
     if prop == "C02":
-        n = 200 if q else 3000
+        n = 70 if q else 3000
         return [("planted-inf", 3 * n), ("thin", 2 * n), ("small-rand", n), ("small-int", n), ("degenerate", n), ("tiny", n), ("illcond", n)]
     if prop == "C03":
         n = 150 if q else 4000
@@ -360,11 +367,12 @@ def run_check(prop, tier, seed):
     rep.assumptions = ["the Python reference simplex/certificate checkers (vlib/refsolve.py, vlib/cert.py) are correct; the reference is self-certifying",
                        "inputs are generated inside (-1e150, 1e150) which the library treats as finite"]
     payloads = []
-    per = 50 if tier == "quick" else 100
+    per = 15 if tier == "quick" else 60
     for stream, n in plan(prop, tier):
-        step = 10 if stream == "medium" else per
+        step = 2 if stream == "medium" else per
         for s in range(0, n, step):
             payloads.append(dict(prop=prop, tier=tier, seed=seed, stream=stream, start=s, count=min(step, n - s), bindir=b["asan"]))
+    payloads.sort(key=lambda p: 0 if p["stream"] in ("medium", "planted-unb") else 1)
     for part in run.pool_map("checks.solvefam", "chunk", payloads):
         rep.merge(part)
     return rep.finish(floor=100)
